@@ -66,6 +66,7 @@ structure Blk where
   hasInitAsync : Bool := false
   initDur : Nat := 0
   initTimeout : Nat := 0
+  initCancelDur : Nat := 0          -- time init_async needs to finish once cancelled (await in a `finally`)
   cancelDur : Nat := 0              -- time the main task needs to finish once cancelled
   stopDur : Nat := 0                -- own asynchronous clean-up / duration of the output coroutine
   stopTimeout : Nat := 1
@@ -128,6 +129,7 @@ structure Cfg where
 
 inductive Res where
   | ok | err | timeout | cancelled
+  | pending     -- cancelled, but still running when `_run_tasks` gave up waiting for it
   deriving DecidableEq, Repr, Inhabited
 
 inductive Ev where
@@ -155,6 +157,8 @@ structure Job where
   dur : Option Nat      -- instant of completion (relative to the creation), none = never
   timeout : Nat
   ok : Bool             -- returns (true) or raises (false) when it completes
+  cdur : Nat := 0       -- time the task needs to finish once it is cancelled (an `await` in a `finally`
+                        -- clause, an inner task that is awaited)
   deriving Repr, Inhabited
 
 structure JobEnd where
@@ -165,11 +169,24 @@ structure JobEnd where
 
 def Job.fin (j : Job) : Res := if j.ok then .ok else .err
 
+/-- a task cancelled at `l` by a cancelled `_run_tasks`, which then waits for it until `T`
+    (`asyncio.wait(tasks, timeout=<longest timeout> - elapsed)`): it ends at `l + cdur`, or is still
+    pending when the wait gives up -/
+def Job.cancelEnd (l T : Nat) (j : Job) : JobEnd :=
+  if l + j.cdur ≤ max l T then ⟨j.k, l + j.cdur, .cancelled⟩ else ⟨j.k, max l T, .pending⟩
+
 /-- what became of a job that is not the awaited one when `_run_tasks` is cancelled at `l` -/
-def Job.atCancel (l : Nat) (j : Job) : JobEnd :=
+def Job.atCancel (l T : Nat) (j : Job) : JobEnd :=
   match j.dur with
-  | some d => if d ≤ l then ⟨j.k, d, j.fin⟩ else ⟨j.k, l, .cancelled⟩
-  | none => ⟨j.k, l, .cancelled⟩
+  | some d => if d ≤ l then ⟨j.k, d, j.fin⟩ else j.cancelEnd l T
+  | none => j.cancelEnd l T
+
+/-- the instant the bounded wait for the cancelled tasks returns: when the last of them has ended
+    (a pending one "ends" at the bound) -/
+def lastEnd (l : Nat) (es : List JobEnd) : Nat := es.foldl (fun m e => max m e.time) l
+
+/-- the longest time-out = the time-out of the first of the sorted jobs (`btt_list[0][2]`) -/
+def deadline (js : List Job) : Nat := (js.head?.map (·.timeout)).getD 0
 
 /-- `sorted(btt_list, key=timeout, reverse=True)` – stable -/
 def sortJobs (js : List Job) : List Job := js.mergeSort (fun a b => b.timeout ≤ a.timeout)
@@ -195,24 +212,31 @@ def cancelledBefore (limit : Option Nat) (w : Nat) : Option Nat :=
 
 /--
 The loop of `_run_tasks` over the sorted jobs; `now` = time elapsed since the tasks were
-created; `limit` = instant at which the awaiting task itself is cancelled (if ever).
+created; `limit` = instant at which the awaiting task itself is cancelled (if ever); `T` = the
+longest time-out (`deadline` of the whole sorted list).
 Returns the fate of every job, the instant the loop ended and whether it was cancelled.
 -/
-def awaitJobs (limit : Option Nat) : Nat → List Job → List JobEnd × Nat × Bool
+def awaitJobs (limit : Option Nat) (T : Nat) : Nat → List Job → List JobEnd × Nat × Bool
   | now, [] => ([], now, false)
   | now, j :: js =>
     if j.doneBy now then
-      let r := awaitJobs limit now js
+      let r := awaitJobs limit T now js
       (⟨j.k, j.dur.getD now, j.fin⟩ :: r.1, r.2)
     else
       match cancelledBefore limit (j.wake now).1 with
       | some l =>
-        -- CancelledError in wait_for: the awaited task is cancelled with it; the `finally`
-        -- clause cancels every other task that is not done
-        (⟨j.k, l, .cancelled⟩ :: js.map (Job.atCancel l), l, true)
+        -- CancelledError in wait_for: the awaited task is cancelled with it and awaited by asyncio
+        -- until it has ended (`l + cdur`); then the handler cancels every other task that is not
+        -- done and (patches/C08-run-tasks-awaits-cancelled.diff) waits for them, bounded by `T`
+        let others := js.map (Job.atCancel (l + j.cdur) T)
+        (⟨j.k, l + j.cdur, .cancelled⟩ :: others, lastEnd (l + j.cdur) others, true)
       | none =>
-        let r := awaitJobs limit (j.wake now).1 js
+        let r := awaitJobs limit T (j.wake now).1 js
         (⟨j.k, (j.wake now).1, (j.wake now).2⟩ :: r.1, r.2)
+
+/-- `_run_tasks` on freshly created tasks -/
+def runTasks (limit : Option Nat) (js : List Job) : List JobEnd × Nat × Bool :=
+  awaitJobs limit (deadline (sortJobs js)) 0 (sortJobs js)
 
 /-! ### start -/
 
@@ -246,7 +270,7 @@ def Blk.wantsInitAsync (b : Blk) : Bool :=
 
 def initJobs (bs : List Blk) : List Job :=
   (enum bs).filterMap fun (k, b) =>
-    if b.wantsInitAsync then some ⟨k, some b.initDur, b.initTimeout, !b.fInitAsync⟩ else none
+    if b.wantsInitAsync then some ⟨k, some b.initDur, b.initTimeout, !b.fInitAsync, b.initCancelDur⟩ else none
 
 /-- second synchronous pass over the SBlocks: the blocks whose `init_sblock` completed and
     whether one raised -/
@@ -305,12 +329,12 @@ def stopJob (bs : List Blk) (failed : List Nat) (inited : List Nat) (k : Nat) : 
   let b := blk bs k
   if b.kind == .outa then
     -- awaits the control task, which runs the coroutine for stop_data and meets the sentinel
-    if b.stopData && !inited.contains k then ⟨k, some 0, b.stopTimeout, false⟩
-    else ⟨k, some (if b.stopData then b.stopDur else 0), b.stopTimeout, true⟩
+    if b.stopData && !inited.contains k then ⟨k, some 0, b.stopTimeout, false, 0⟩
+    else ⟨k, some (if b.stopData then b.stopDur else 0), b.stopTimeout, true, 0⟩
   else if failed.contains k then
     -- `await self._mtask` re-raises the main task's exception
-    ⟨k, some 0, b.stopTimeout, false⟩
-  else ⟨k, some (b.cancelDur + b.stopDur), b.stopTimeout, !b.fStopAsync⟩
+    ⟨k, some 0, b.stopTimeout, false, 0⟩
+  else ⟨k, some (b.cancelDur + b.stopDur), b.stopTimeout, !b.fStopAsync, 0⟩
 
 def immediate (bs : List Blk) (failed : List Nat) (inited : List Nat) (k : Nat) : Bool :=
   ((blk bs k).kind == .outa || (blk bs k).kind == .aplain || failed.contains k)
@@ -341,7 +365,7 @@ def stopSblocks (bs : List Blk) (failed : List Nat) (inited : List Nat) (started
   let sabs := oa.flatMap fun k =>
     if immediate bs failed inited k then [Ev.sab k, Ev.sae k (stopJob bs failed inited k).fin]
     else [Ev.sab k]
-  let r := awaitJobs none 0 (sortJobs (oa.map (stopJob bs failed inited)))
+  let r := runTasks none (oa.map (stopJob bs failed inited))
   let saes := (sortEnds (r.1.filter fun e => !immediate bs failed inited e.k)).map
     fun e => Ev.sae e.k (seenRes bs e)
   let s0 : CState := { timers := timers0, stopped := oa, started := started }
@@ -458,7 +482,7 @@ def plan (c : Cfg) : Plan :=
     | none => (c.cause.time, c.cause.kind.isError, true)
   let tX := ext.1
   -- initialisation
-  let ir := awaitJobs (some tX) 0 (sortJobs (initJobs bs))
+  let ir := runTasks (some tX) (initJobs bs)
   let asyncOk : Nat → Bool := fun k => ir.1.any fun e => e.k == k && e.res == .ok
   let s2 := sync2 asyncOk (enum bs)
   let allInit := (enum bs).all fun (k, b) => b.initialized asyncOk k
@@ -467,8 +491,9 @@ def plan (c : Cfg) : Plan :=
   let phase := phaseOf startFailed (tX == 0) ir.2.2 (s2.2 || !allInit) calcFails
   let tT : Nat := match phase with
     | .startFailed | .afterStart | .notStarted => 0
-    | .asyncInit | .running => tX
-    | .initFailed | .evalFailed => ir.2.1
+    | .running => tX
+    -- a cancelled `_run_tasks` has waited for the tasks it cancelled
+    | .asyncInit | .initFailed | .evalFailed => ir.2.1
   let isErr : Bool := match phase with
     | .startFailed | .initFailed | .evalFailed => true
     | _ => ext.2.1
